@@ -301,6 +301,42 @@ def run(pm, ctx):
         'set_default for every field with a declared default', pfd.loc,
         msg='set_default is not reached for every declared default',
         key='C10-R6|%s|set' % pfd.qualname)
+    # ---------------- R9: a nullable field never carries a default (its unset value is None)
+    ctx.rule('C10-R9', 'every default on a nullable field is refused, `= null` included')
+    csf = pm.func('stone.frontend.ir_generator.IRGenerator._create_struct_field')
+    pic = path_info(csf.node)
+    exact = []
+    for n in own_nodes(csf.node):
+        if isinstance(n, ast.Raise):
+            pos = sorted(unparse(e) for e, p in pic.at(n) if p)
+            if 'stone_field.has_default' in pos and any('Nullable' in t for t in pos):
+                exact.append(pos)
+    ctx.check('C10-R9', exact == [['isinstance(data_type, Nullable)', 'stone_field.has_default']],
+              '_create_struct_field refuses a default on a nullable field under exactly '
+              '(nullable and has_default)', csf.loc,
+              msg='the refusal of defaults on nullable fields now holds under %s: some default '
+                  '(e.g. `= null`) is accepted, which the generated attribute cannot represent '
+                  'and computed examples then carry an explicit null the encoder drops' % exact,
+              key='C10-R9|%s' % csf.qualname)
+
+    # ---------------- R8: computed examples are handed out as copies
+    ctx.rule('C10-R8', 'get_examples never exposes or rewrites the stored examples: every use of '
+                       'self._examples there is the argument of copy.deepcopy')
+    ge = pm.func('stone.ir.data_types.UserDefined.get_examples')
+    uses = [n for n in own_nodes(ge.node, include_nested=True) if isinstance(n, ast.Attribute) and
+            unparse(n) == 'self._examples' and isinstance(n.ctx, ast.Load)]
+    bad = []
+    for u in uses:
+        par = getattr(u, '_parent', None)
+        if not (isinstance(par, ast.Call) and dotted(par.func) in ('copy.deepcopy', 'deepcopy')
+                and u in par.args):
+            bad.append(u.lineno)
+    ctx.check('C10-R8', uses and not bad, 'get_examples deep-copies the stored examples before '
+              'compacting or returning them', ge.loc,
+              msg='get_examples uses self._examples without copy.deepcopy (line %s): compacting '
+                  'rewrites the stored examples, so a later get_examples() returns documents '
+                  'that no longer encode back to themselves' % bad,
+              key='C10-R8|%s' % ge.qualname)
     ctx.import_rules(pm, 'C08', {'C08-R6'}, 'C10-R7',
                      'the generated attribute takes nullability from the field type itself, not '
                      'through aliases (shared with C08-R6)')
